@@ -371,3 +371,45 @@ func VH_C04_vacuity() {
 	verif.Assume(err == nil && idx == 0)
 	verif.Assert(false, "vacuity")
 }
+
+// VH_C04_bigbatch: Pebble may flush its memtable on its own at any time (the
+// WAL is disabled, so whatever has been committed can become durable without
+// a Sync) and a batch may cross any size threshold. One apply call delivers
+// two entries after a synced one; the process dies right after it. The
+// reopened table reports an index i with exactly the entries 1..i visible -
+// never the index of an entry whose write is missing. Engine only.
+func VH_C04_bigbatch() {
+	mem := vfs.NewStrictMem()
+	vhDurableDir(mem, "/data")
+	vhDurableDir(mem, "/data/host")
+	cfs := &vhCrashFS{FS: mem}
+	f := vhFSMOn(cfs, vhNodeDir)
+	_, err := f.Open(nil)
+	verif.Assume(err == nil)
+	put := func(k string) *regattapb.Command {
+		return &regattapb.Command{Table: []byte("t"), Type: regattapb.Command_PUT, Kv: &regattapb.KeyValue{Key: []byte(k), Value: []byte("1")}}
+	}
+	_, err = f.Update([]sm.Entry{vhEntry(7, put("a"))})
+	verif.Assume(err == nil && f.Sync() == nil)
+	verif.BatchSizes(true)
+	verif.SpontaneousFlush(true)
+	_, err = f.Update([]sm.Entry{vhEntry(8, put("b")), vhEntry(9, put("c"))})
+	verif.Assert(err == nil, "apply succeeds")
+	verif.SpontaneousFlush(false)
+	verif.BatchSizes(false)
+	vhKill(mem, cfs, f)
+
+	f2 := vhFSMOn(&vhCrashFS{FS: mem}, vhNodeDir)
+	idx, err := f2.Open(nil)
+	verif.Assert(err == nil, "reopening a table after a crash succeeds")
+	if err != nil {
+		return
+	}
+	verif.Assert(idx >= 7 && idx <= 9, "the reported index is one the log produced, not behind the completed sync")
+	w := vhWhole(f2)
+	verif.Assert(w.Count == int64(idx-6), "exactly the entries up to the reported index are visible (never an index ahead of the data)")
+	if idx == 9 {
+		verif.Cover("flushed-on-its-own")
+	}
+	verif.Cover("end")
+}
